@@ -46,6 +46,7 @@ IdValue(name, cur, H, log) ==
   ELSE LET h == HostResolve(H, name) IN
        R(IF h = None THEN U ELSE h[1], Append(log, [cb |-> "resolve", sym |-> name, answered |-> h # None]))
 
+NarrowV(r, by) == [t |-> "range", l |-> MkInt(r.l.v + by.l.v), r |-> MkInt(r.l.v + by.r.v)]
 RECURSIVE PathAccess(_, _, _)
 \* follow a path of keys / indexes through nested containers; a missing step ends the walk with unit
 PathAccess(cur, parts, i) ==
@@ -82,6 +83,9 @@ ApplyV(f, x, empty, H, log, fuel) ==
   ELSE IF f.t \in {"str", "bytes"} /\ x.t = "range" THEN R(IF IntRange(x) THEN [t |-> "slice", l |-> f, r |-> x] ELSE SKIP, log)
   ELSE IF f.t \in {"str", "bytes"} /\ x.t = "int" THEN R(U, log)        \* text is indexed with `.`, applying it to a number is not defined
   ELSE IF f.t \in {"list", "pair", "str", "bytes"} /\ x.t = "float" THEN R(SKIP, log)      \* fractional index: not specified
+  \* a range applied to a range is the sub-range at those positions; a slice applied to a range narrows its range the same way
+  ELSE IF f.t = "range" /\ x.t = "range" THEN R(IF IntRange(f) /\ IntRange(x) /\ x.l.v >= 0 THEN NarrowV(f, x) ELSE SKIP, log)
+  ELSE IF f.t = "slice" /\ x.t = "range" THEN R(IF f.r.t = "range" /\ IntRange(f.r) /\ IntRange(x) /\ x.l.v >= 0 THEN [t |-> "slice", l |-> f.l, r |-> NarrowV(f.r, x)] ELSE SKIP, log)
   ELSE IF f.t \in {"range", "slice", "sym", "symlist", "concat", "str", "bytes"} THEN R(SKIP, log)
   ELSE IF f.t = "list" /\ x.t = "range" THEN R(IF IntRange(x) THEN [t |-> "slice", l |-> f, r |-> x] ELSE SKIP, log)     \* a list applied to a range is the slice
   ELSE IF f.t = "list" /\ x.t = "symlist" THEN R(PathAccess(f, x.v, 1), log)        \* a list applied to a symbol list follows the path key by key
